@@ -40,12 +40,22 @@ judge(const unsigned char *raw, size_t n, int serial, int listed, const char *mu
     H.out_n = 0;
     H.ncalls = 0;
     H.verdict = (RPBlockAccess){ .status = RP_RESP_ACK, .address = 0 };
+    /* every seventh frame meets a reply channel that is down: what the receiver concluded about the frame and what
+     * it does with it must not depend on whether its reply got out */
+    static unsigned judged;
+    const int reply_channel_down = (++judged % 7u) == 0;
+    H.out_calls = 0;
+    H.out_failed = 0;
+    H.out_fail_from = reply_channel_down ? 0 : SIZE_MAX;
     RPMaybeFrame mf;
     int rc1 = regp_recv(&H.p, &mf);
     int rc2 = regp_process(&H.p, &mf);
     regp_free(&H.p, mf.frame);
+    H.out_fail_from = SIZE_MAX;
     (void)rc1;
     (void)rc2;
+    if (reply_channel_down)
+        VH_COUNT("frame judged with the reply channel down");
     struct rframe f;
     int v = rp_decode_raw(raw, n, &f);
     char key[96], ctx[300];
@@ -92,6 +102,8 @@ judge(const unsigned char *raw, size_t n, int serial, int listed, const char *mu
         return;
     }
     /* (iii) the reply */
+    if (reply_channel_down)
+        return; /* nothing got out; which replies were attempted is not judged */
     int is_req = v != EBADMSG && (f.type == RT_READ_REQ || f.type == RT_WRITE_REQ);
     if (v == EBADMSG || v == EILSEQ) {
         unsigned want = v == EBADMSG ? 1u : 2u;
@@ -777,7 +789,7 @@ harness_run(void)
                                  "wire damage class: burst of 2..16 bits",
                                  "wire damage making regp_recv fail before the end of the input (illegal escape)",
                                  "wire damage leaving no intact request", "wire damage leaving one intact request",
-                                 "wire damage leaving two intact requests",
+                                 "wire damage leaving two intact requests", "frame judged with the reply channel down",
                                  "corpus frame with all-zero payload (payload checksum 0000)",
                                  "corpus frame with payload ending in its own checksum (payload checksum 0000)",
                                  "corpus frame with header checksum 0000" };
